@@ -54,11 +54,12 @@ def run_pull_fail(params, ch):
     slow = params.get('slow')
     if slow:
         cfg['wrte_delay'] = slow[0]
-    s = Session(ch, cfg, twin=params['twin'])
+    s = Session(ch, cfg, twin=params['twin'], order_budgeted=bool(params.get('cb')))
     try:
         s.op(('connect',))
         t0 = s.env.clock.now
-        r = s.op(('pull', '/f', 'bytesio', {'read_timeout_s': slow[1]})) if slow else s.op(('pull', '/f', 'bytesio'))
+        pkw = {'cb': params['cb']} if params.get('cb') else {}
+        r = s.op(('pull', '/f', 'bytesio', dict(pkw, read_timeout_s=slow[1]))) if slow else s.op(('pull', '/f', 'bytesio', pkw) if pkw else ('pull', '/f', 'bytesio'))
         viol = oracle.base_viol(s, completed=False)
         judge_exc(s, r, 'AdbCommandFailureException', reason, viol, 'pull (FAIL %s, cuts %r%s)' % (when, cuts, ', every device WRTE %.1f s late, read timeout %.1f s' % tuple(slow) if slow else ''))
         if s.env.clock.now - t0 >= 10.0 and not slow:
@@ -132,7 +133,8 @@ HDR = {'pull': 8, 'list': 20, 'stat': 16, 'push': 8}
 
 def run_invalid(params, ch):
     op, sid, after = params['op'], params['id'], params['after']
-    rec = frames.u32(frames.S[sid]) + b'\0' * (HDR[op] - 4)
+    fill = (frames.u32(0o100644) + frames.u32(5) + frames.u32(7) + frames.u32(3)) if params.get('fill') else b'\0' * 16
+    rec = frames.u32(frames.S[sid]) + fill[:HDR[op] - 4]
     pre = b''
     if after and op == 'pull':
         pre = frames.sync_req(b'DATA', b'abc')
@@ -151,7 +153,7 @@ def run_invalid(params, ch):
         r = s.op({'pull': ('pull', '/f', 'bytesio'), 'list': ('list', '/d'), 'stat': ('stat', '/f'), 'push': ('push', ('bytes', b'hello'), '/g')}[op])
         viol = oracle.base_viol(s, completed=False)
         judge_exc(s, r, 'InvalidResponseError', None, viol, '%s answered with a %s record%s' % (op, sid.decode(), ' after a valid record' if after else ''))
-        return {'outcome': r[:2], 'viol': viol, 'nontrivial': (op, sid, after, tuple(cuts), params['twin']),
+        return {'outcome': r[:2], 'viol': viol, 'nontrivial': (op, sid, after, tuple(cuts), params['twin'], params.get('fill')),
                 'sample': {'op': op, 'record': sid, 'after_valid_record': after, 'cuts': cuts, 'twin': params['twin'], 'result': r[:2]}, 'trans': len(s.env.events)}
     finally:
         s.finish()
@@ -162,6 +164,9 @@ def parts(tier):
     kp = 3 if tier == 'thorough' else 2
     sc = [{'when': w, 'reason': ri, 'twin': t, 'kmax': (1 if ri == 3 else (kp if ri in (0, 1) or w == 'start' else 2))} for w in ('start', ['data', 1], ['data', 2], 'done') for ri in range(len(REASONS)) for t in twins]
     out = [Part('pull-fail', sc, run_pull_fail, {'*': None}, what='pull: FAIL at every point x reasons x cut sets', bound='<=%d cuts' % kp, min_outcomes=1)]
+    sc = [{'when': w, 'reason': ri, 'twin': t, 'kmax': 2, 'cb': cb} for w in (['data', 1], ['data', 2], 'done') for ri in (2,) for t in twins for cb in ('count', 'reenter')]
+    out.append(Part('pull-fail-with-callback', sc, run_pull_fail, {'*': None, 'dev-order': 1}, what='the same with a progress callback, also one that queries the device (a second stream whose reader may take the FAIL fragments off the wire)',
+                    bound='<=2 cuts, <=1 deviation of the device wire order', min_outcomes=1))
     sc = []
     # sizes at maxdata 4096 (chunk 2048): number of host WRTEs grows with the size (reported per sample)
     for size, nw in ((100, 1), (5000, 2), (9000, 3), (17000, 5)):
@@ -189,8 +194,8 @@ def parts(tier):
     sc = [{'size': size, 'when': w, 'delay': d, 'reason': ri, 'twin': t, 'kmax': 2, 'slow': SLOW} for size in (100, 5000) for w in ('header', ['data', 1], 'done')
           for d in (0, 1) for ri in (1, 2) for t in twins]
     out.append(Part('push-fail-slow-device', sc, run_push_fail, {'*': None}, what='push: the same slow device rejecting a push', bound='<=2 cuts', min_outcomes=1))
-    sc = [{'op': op, 'id': sid, 'after': a, 'twin': t} for op in ('pull', 'list', 'stat', 'push') for sid in IDS if sid not in VALID[op]
-          for a in ((False, True) if op in ('pull', 'list') else (False,)) for t in twins]
+    sc = [{'op': op, 'id': sid, 'after': a, 'twin': t, 'fill': f} for op in ('pull', 'list', 'stat', 'push') for sid in IDS if sid not in VALID[op]
+          for a in ((False, True) if op in ('pull', 'list') else (False,)) for t in twins for f in ((False, True) if (sid == b'STAT' and op in ('pull', 'push')) else (False,))]       # fill: a STAT record with non-zero fields (a STAT record has no payload, whatever its fields say)
     out.append(Part('invalid-records', sc, run_invalid, {'*': None}, what='every known sync id that is not valid at that point, first reply and after a valid record',
                     bound='%d (op, id, point, twin) cases x every single cut' % len(sc), min_outcomes=1))
     return out
